@@ -66,6 +66,7 @@ type FuncSpec struct {
 	Loops    map[int]*LoopSpec
 	NoPanic  bool
 	Lossless bool
+	AllocBound SExpr
 	PanicOK  bool // panic-as-exit
 	Trusted  bool
 	Inline   bool
@@ -768,6 +769,9 @@ func (ss *SpecSet) ParseSpecFile(file, pkgPath string) error {
 		case "lossless":
 			// every narrowing integer conversion in the function must preserve the value
 			curF.Lossless = true
+		case "allocbound":
+			// allocbound expr: every make([]T, n) in the function body allocates at most expr elements
+			curF.AllocBound = mustExpr(file, lno, rest)
 		case "nopanic":
 			curF.NoPanic = true
 		case "panic-as-exit":
